@@ -54,6 +54,8 @@ MID = [
     "</p><p><i>Bar</i> again.",
     " (<em>Bar,</em> dissenting).",
     " In <i>Li</i> we held.",
+    " We nevertheless follow <em>Bar</em>",
+    " We nevertheless follow <em>Bar.</em>",
     " We dis\u00ad\n        agree with that reading.\n   Bar at 7 says so.",  # a soft hyphen at a line end, as hyphenating tools write it
     " We dis&shy;agree. See Bar at 9 and\u200b <i>Bar</i> too.",
     # a second case whose parenthetical mentions the first one in a style tag, directly followed by a supra / short form
@@ -62,7 +64,7 @@ MID = [
     " Li at 7 says, and <em>Roe</em> too.",
     "",
 ]
-END = ["</p>", "</p></div>", ""]
+END = ["</p>", "</p></div>", "", "</p>\n"]
 STEPS = [["html"], ["html", "all_whitespace"], ["html", "inline_whitespace"]]
 OWN_DISALLOWED = {"state", "united states", "people", "commonwealth", "mass"}
 
@@ -86,8 +88,8 @@ _TIER = {"t": "thorough"}
 
 
 def documents():
-    # the second later-mention slot ranges over the whole domain in the thorough tier, over the first 8 values and '' in quick
-    mid2_dom = MID if _TIER["t"] == "thorough" else MID[:8] + [""]
+    # the second later-mention slot ranges over the whole domain in the thorough tier, over the first 5 values and '' in quick
+    mid2_dom = MID if _TIER["t"] == "thorough" else MID[:5] + [""]
     for pre, name, cite, mid, mid2, end in itertools.product(PRE, NAME, CITE, MID, mid2_dom, END):
         if pre.startswith("<div") != end.endswith("</div>"):
             continue
